@@ -128,8 +128,8 @@ def buildResponses (t : DevTree) (stHeader : Str) : List Msg :=
 /-- `_build_advertisements`: (NT, USN) list in emission order -/
 def advertisements (t : DevTree) : List Msg :=
   ⟨rootDevice, t.udn ++ sep ++ rootDevice⟩
-    :: ((allDevices t).flatMap fun d => [⟨d.udn, d.udn⟩, ⟨d.type, d.udn ++ sep ++ d.type⟩])
-    ++ (allServices t).map fun s => ⟨s.type, s.owner ++ sep ++ s.type⟩
+    :: (((allDevices t).flatMap fun d => [⟨d.udn, d.udn⟩, ⟨d.type, d.udn ++ sep ++ d.type⟩])
+    ++ (allServices t).map fun s => ⟨s.type, s.owner ++ sep ++ s.type⟩)
 
 /-! ### the search responder's datagram handler -/
 
